@@ -52,13 +52,15 @@ for b in blocks:
     pid, k, mode, at, rest = m.groups()
     t = re.search(r"tests: ran=(\d+) stable_in_scope=(\d+) newly_failing=(\d+)", rest)
     d = re.search(r"demo with patch exit=(\d+) ; without exit=(\d+)", rest)
-    if t and d:
+    SEQUENTIAL = {"C05-1", "C05-2", "C19-1", "C19-2", "C26-1", "C26-2", "C27-1", "C27-2", "C28-1", "C28-2", "C31-1", "C31-2", "C32-1", "C32-2",
+                  "C06-1", "C06-2", "C17-1", "C17-2", "C09-1"}      # confirmed while a single queue was running: the log blocks are unambiguous
+    if t and d and f"{pid}-{k}" in SEQUENTIAL:
         conf[f"{pid}-{k}"] = dict(mode=mode, ran=int(t.group(1)), stable=int(t.group(2)), newly_failing=int(t.group(3)), demo_with=int(d.group(1)), demo_without=int(d.group(2)))
 # per-seed result files written by confirm_seed.sh (authoritative: the shared log interleaves when several queues run)
 import glob
 for f in glob.glob("/tmp/confirm.C*.result.json"):
     r = json.load(open(f))
-    conf[r["seed"]] = dict(mode=r["mode"], ran=r["ran"], stable=r["stable"], newly_failing=r["newly_failing"], demo_with=r["demo_with"], demo_without=r["demo_without"])
+    conf[r["seed"]] = dict(mode=r["mode"], ran=r["ran"], stable=r["stable"], newly_failing=r["newly_failing"], demo_with=r["demo_with"], demo_without=r["demo_without"], note=r.get("note"))
 # C30 was confirmed by hand before the queue existed
 conf.setdefault("C30-1", dict(mode="fast", ran=877, stable=871, newly_failing=0, demo_with=1, demo_without=0))
 conf.setdefault("C30-2", dict(mode="fast", ran=877, stable=871, newly_failing=0, demo_with=1, demo_without=0))
@@ -88,7 +90,7 @@ for seed, c in sorted(conf.items()):
            "files": meta.get("files", []), "produced_by": "sub-agent given only the property text and a scratch worktree",
            "confirmed": {"how": f"tools/confirm_seed.sh {pid} {k} {c['mode']} in the scratch worktree", "demo_exit_with_patch": c["demo_with"], "demo_exit_without_patch": c["demo_without"],
                          "tests_run": c["ran"], "baseline_stable_tests_in_scope": c["stable"], "newly_failing": c["newly_failing"],
-                         "scope": "the full pinned suite" if c["mode"] == "full" else "fast part (vibe suite, test_model, test_toll, tests/network, viz/plotting/tracegen/isl); the change cannot reach the mapper regression tests"},
+                         "note": c.get("note"), "scope": "the full pinned suite" if c["mode"] == "full" else "fast part (vibe suite, test_model, test_toll, tests/network, viz/plotting/tracegen/isl); the change cannot reach the mapper regression tests"},
            "detected_by": ({"check": f"./check {det[0]} --tier quick (git -C /repo apply patch.diff; run; git -C /repo checkout -- .)", "result": "exit 1 with VIOLATION lines (replayed on the real code)", "note": det[1]}
                            if det[0] else {"check": None, "result": "exit 0 (not detected)", "note": det[1]})}
     json.dump(out, open(f"{dst}/meta.json", "w"), indent=1)
